@@ -89,8 +89,6 @@ def split(
             for ii in range(num_files):
                 pp = path_out / f"{path_in.stem}_{ii+1:04d}.rtdc"
                 pt = pp.with_suffix(".rtdc~")
-                paths_gen.append(pp)
-                paths_temp.append(pt)
                 if verbose:
                     print(f"Generating {ii+1:d}/{num_files:d}: {pt}")
                 ds.filter.manual[:] = False  # reset filter
@@ -100,6 +98,12 @@ def split(
                     initial=skip_initial_empty_image,
                     final=skip_final_empty_image)
                 ds.apply_filter()
+                if not ds.filter.all.any():
+                    # Nothing to export (the only event of this part
+                    # is a skipped empty boundary image).
+                    continue
+                paths_gen.append(pp)
+                paths_temp.append(pt)
                 ds.export.hdf5(path=pt,
                                features=ds.features_innate,
                                logs=True,
